@@ -92,6 +92,9 @@ def directed(rng):
                                                                  peer(R(1), R(2)), D] + ([dict(a='cbret', id=str(1 + v)), dict(a='cbret', id='2'), D] if v % 2 else []))
         # the id "1" (a string) is not the id 1 (a number)
         add('string-id-%d' % v, {}, [op('o1'), op('o2', 'batch', [False, False]), D, peer(('strid', 1, False)), D, peer(('strid', 2 + v % 2, False), R(3, e)), D, peer(R(2), R(1)), D])
+        # a batch of nothing (an empty, or a nil, list of specs) puts nothing on the channel
+        add('empty-batch-%d' % v, {}, [op('o1'), dict(a='op', op='o2', kind=['emptybatch', 'nilbatch', 'emptybatch'][v], specs=[]), D, peer(R(1, e)), D,
+                                       dict(a='op', op='o3', kind=['nilbatch', 'emptybatch', 'emptybatch'][v], specs=[]), op('o4', 'notify'), D])
         add('cancel-%d' % v, {}, [op('o1'), op('o2'), D, dict(a='ctxend', op='o1'), D, peer(R(1)), peer(R(2, e)), D])
         add('cancel-race-%d' % v, {}, [op('o1'), D, dict(a='ctxend', op='o1'), peer(R(1)), D])
         add('deadline-%d' % v, {}, [op('o1', ctxkind='deadline'), op('o2', 'batch', [False, False]), D, dict(a='ctxend', op='o1'), D, peer(R(2), R(3)), D])
